@@ -115,6 +115,17 @@ def c15_jobs(rng, quick, nhist, nenc):
     for j in var + colour:
         hid += 1
         jobs.append(dict(j, hid=hid, proj="digest", hist=h, skey=j.get("skey", ""), mustshot=True))
+    # many small symbols whose result is compared with whole processes run under other GOMAXPROCS values (work split among a number of workers
+    # taken from the runtime: ties, remainders and empty pools show for a fraction of the inputs only)
+    h += 1
+    for k in range(400 if quick else 3000):
+        hid += 1
+        c = "ITEM-%04d" % k if k % 3 == 0 else ("%d" % (k * 7919) if k % 3 == 1 else "Lot %d / %c" % (k, 65 + k % 26))
+        jobs.append(dict(gen.enc("qr", onedim.U(c), (k % 4, 0)), hid=hid, proj="digest", hist=h, skey="", batchshot=True))
+    for k, (sym, c, p) in enumerate(gen.SAMPLES * 3):
+        hid += 1
+        cc = (c if isinstance(c, (list, bytes)) else onedim.U(c))
+        jobs.append(dict(gen.enc(sym, cc, p), hid=hid, proj="digest", hist=h, skey="", batchshot=True))
     return jobs
 
 
@@ -142,7 +153,7 @@ def run(tier):
     rng = chk.rng
     nhist, nenc = (3, 250) if quick else (30, 900)
     jobs = c15_jobs(rng, quick, nhist, nenc)
-    nhist += (8 if quick else 16) + 1
+    nhist += (8 if quick else 16) + 2
     # mutation pass needs event indices: run once to learn which aztec encodes succeeded (inputs only), then run the full history in a fresh process
     probe = vlib.run_drive(drive, jobs, chk.work, name="probe")
     full = jobs + add_mutations(probe, jobs)
@@ -154,13 +165,25 @@ def run(tier):
     shots = must + rng.sample(rest, min(len(rest), 50 if quick else 800))
     oneshots = []
     for k, e in enumerate(shots):
-        sub = vlib.run_drive(drive, [dict(onedim.strip(e), hid=0)], chk.work, name="shot")
+        gmp = ("1", "2", "3", "5", "7", "16", "64")[k % 7]       # the fresh processes also differ in the number of processors the runtime may use
+        sub = vlib.run_drive(drive, [dict(onedim.strip(e), hid=0)], chk.work, name="shot", env={"GOMAXPROCS": gmp})
         o = sub[0]
+        o["gmp"] = gmp
         o["op"] = "oneshot"
         o["hist"] = e["hist"]
         o["i"] = 10 ** 6 + k
         o["orig_i"] = e["i"]
         oneshots.append(o)
+    batch = [e for e in enc if e.get("batchshot")]
+    for gmp in ("3", "5", "2", "1"):
+        sub = vlib.run_drive(drive, [dict(onedim.strip(e), hid=0) for e in batch], chk.work, name="batchshot", env={"GOMAXPROCS": gmp})
+        for k, (o, e) in enumerate(zip(sub, batch)):
+            o["op"] = "oneshot"
+            o["hist"] = e["hist"]
+            o["i"] = 2 * 10 ** 6 + len(oneshots)
+            o["orig_i"] = e["i"]
+            o["gmp"] = gmp
+            oneshots.append(o)
     by_hist = {}
     for e in evs + oneshots:
         by_hist.setdefault(e["hist"], []).append(e)
@@ -201,7 +224,7 @@ def run(tier):
                 continue
         sub = vlib.run_drive(drive, hist, chk.work, name="repro")
         if ev["op"] == "oneshot":
-            o = vlib.run_drive(drive, [dict(onedim.strip(ev), op="encode", hid=0)], chk.work, name="shot")[0]
+            o = vlib.run_drive(drive, [dict(onedim.strip(ev), op="encode", hid=0)], chk.work, name="shot", env={"GOMAXPROCS": ev.get("gmp", "16")})[0]
             o["op"] = "oneshot"
             sub.append(o)
         _, bad2, _, _ = vlib.validate_traces(chk.work, "TraceHist", "TraceHist.cfg", [sub], timeout=3000)
@@ -217,9 +240,10 @@ def run(tier):
             if b["why"] not in {x["why"] for x in bad3}:
                 raise vlib.Inconclusive("unreproduced rejection: %s" % k)
             chk.report(k, "%s: %s (only after the %d calls the same process made before it)" % (k, b["why"], upto), dict(jobs=prefix, expect=b["why"], hist=ev["hist"],
-                       oneshot=(onedim.strip(ev) if ev["op"] == "oneshot" else None)))
+                       oneshot=(onedim.strip(ev) if ev["op"] == "oneshot" else None), shot_env={"GOMAXPROCS": ev.get("gmp", "16")}))
             continue
-        chk.report(k, "%s: %s (history of %d calls)" % (k, b["why"], len(hist)), dict(jobs=hist, expect=b["why"]))
+        chk.report(k, "%s: %s (history of %d calls%s)" % (k, b["why"], len(hist), "; fresh process with GOMAXPROCS=%s" % ev["gmp"] if ev.get("gmp") else ""),
+                   dict(jobs=hist, expect=b["why"], oneshot=(onedim.strip(ev) if ev["op"] == "oneshot" else None), shot_env={"GOMAXPROCS": ev.get("gmp", "16")}))
     chk.sample(dict(history_prefix=[dict(sym=e["sym"], api=e["api"], p=e["p"], content_len=len(e["content"]), pxdigest=e["res"].get("pxdigest", "")[:16]) for e in enc[:6]]))
     chk.assumptions += ["observations are SHA-256 digests of the pixel classes plus every accessor, computed by the Go projection", "non-determinism with probability far below 1/observations is out of reach of a trace-based method"]
     return chk.finish()
@@ -235,7 +259,7 @@ def replay(path):
         if r.get("hist") is not None:
             evs = [e for e in evs if e.get("hist") == r["hist"]]
         if r.get("oneshot"):
-            o = vlib.run_drive(drive, [dict(r["oneshot"], op="encode", hid=0)], chk.work, name="shot")[0]
+            o = vlib.run_drive(drive, [dict(r["oneshot"], op="encode", hid=0)], chk.work, name="shot", env=r.get("shot_env"))[0]
             o["op"] = "oneshot"
             evs.append(o)
         _, bad, _, _ = vlib.validate_traces(chk.work, "TraceHist", "TraceHist.cfg", [evs])
